@@ -42,7 +42,7 @@ ANCHORS = [
     ('pjrpc/client/integrations/pytest.py', 'PjRpcMocker._match_request'),
     ('pjrpc/client/integrations/pytest.py', 'PjRpcMocker._cleanup_matches'),
 ]
-FLOORS = {'*': {'op:add': 500, 'op:replace': 50, 'op:remove-method': 50, 'op:remove-endpoint': 30, 'op:reset': 30,
+FLOORS = {'*': {'fixtures:sessions': 4, 'op:add': 500, 'op:replace': 50, 'op:remove-method': 50, 'op:remove-endpoint': 30, 'op:reset': 30,
                 'op:call': 500, 'op:batch': 200, 'op:batch-of-one': 50, 'op:replace-negative-index': 20, 'op:restart': 50, 'backend:runs': 12, 'backend:passthrough': 4, 'once-exhausted-inside-batch': 10, 'passthrough': 50, 'refused': 50,
                 'unpatched-method': 50, 'client:sync': 200, 'client:async': 200, 'round-robin>=3': 30, 'callback': 50,
                 'id:falsy': 30, 'configured-error-through-the-client-api': 300, 'calls-through-client-notations': 60, 'notation:batch-getitem': 8, 'configured-error:code-with-a-class-of-its-own': 150,
@@ -918,6 +918,8 @@ def gen(ctx):
         yield from emit(once + [['call', ep, [['ma', [1], 1]]], ['call', ep, [['ma', [3], 3]]]])
         yield from emit(once + [['call', ep, [['mb', [1], 1]]], ['remove', ep, 'ma'], ['call', ep, [['ma', [3], 3]]]])
     yield from gen_concurrent(ctx)
+    for value, ecode in ((1, 4001), ('s', 0), (None, -5), ([], 70), ({'k': [1]}, 2 ** 33)) + (((0, 1), (False, -32001)) if full else ()):
+        yield 'fixtures', dict(value=value, ecode=ecode)
 
 
 CONCURRENT_SETUPS = [[['MSync', False], ['MAsync', False]], [['MSync', True], ['MSync2', False]], [['MAsync', False], ['MAsync2', True]],
@@ -995,5 +997,120 @@ def gen_concurrent(ctx):
                     yield 'concurrent_backends', dict(outer=outer, same_pair=same_pair, stop_first=stop_first, url=url)
 
 
-KINDS = {'history': run_history, 'backend': run_backend, 'backend_passthrough': run_backend_passthrough, 'client_error': run_client_error, 'client_calls': run_client_calls,
+FIXTURE_SESSION = r'''
+import json, os
+import pytest
+import pjrpc
+from pjrpc.client.backend import requests as rq
+
+REPORT = os.environ['VMON_C20_REPORT']
+URL = 'http://zq7-no-such-host.invalid/rpc'
+
+
+def note(key, value):
+    data = json.load(open(REPORT)) if os.path.exists(REPORT) else {}
+    data[key] = value
+    json.dump(data, open(REPORT, 'w'))
+
+
+def outcome(fn):
+    try:
+        return ['ret', fn()]
+    except pjrpc.exceptions.JsonRpcError as e:
+        return ['rpc-error', e.code, e.message]
+    except BaseException as e:
+        return ['exc', type(e).__name__]
+
+
+def test_1_requests_fixture(pjrpc_requests_mocker):
+    m = pjrpc_requests_mocker
+    m.add(URL, 'ma', result={'v': VALUE})
+    m.add(URL, 'mb', error=pjrpc.exceptions.JsonRpcError(code=ECODE, message='cfg'))
+    c = rq.Client(URL)
+    note('r.call', outcome(lambda: c.call('ma', 1, 2)))
+    note('r.error', outcome(lambda: c.call('mb')))
+    note('r.unpatched-method', outcome(lambda: c.call('mz')))
+    note('r.batch', outcome(lambda: list(c.batch.add('ma', 3).add('ma', x=4).call())))
+    calls = m.calls[URL][('2.0', 'ma')]
+    note('r.recorded', [[list(c_.args), dict(c_.kwargs)] for c_ in calls.call_args_list])
+
+
+def test_2_after_the_fixture_is_gone():
+    # the fixture of the previous test has been torn down: nothing is patched any more, the real transport is used
+    c = rq.Client(URL)
+    note('after.call', outcome(lambda: c.call('ma', 1)))
+
+
+def test_3_aiohttp_fixture(pjrpc_aiohttp_mocker):
+    import asyncio
+    from pjrpc.client.backend import aiohttp as ah
+    m = pjrpc_aiohttp_mocker
+    m.add(URL, 'ma', result=[VALUE])
+
+    async def go():
+        c = ah.Client(URL)
+        try:
+            return await c.call('ma', 5)
+        finally:
+            await c.close()
+    note('a.call', outcome(lambda: asyncio.new_event_loop().run_until_complete(go())))
+    note('a.recorded', [[list(c_.args), dict(c_.kwargs)] for c_ in m.calls[URL][('2.0', 'ma')].call_args_list])
+
+
+def test_4_both_fixtures(pjrpc_requests_mocker, pjrpc_aiohttp_mocker):
+    pjrpc_requests_mocker.add(URL, 'ma', result='from-requests-mocker')
+    pjrpc_aiohttp_mocker.add(URL, 'ma', result='from-aiohttp-mocker')
+    note('both.requests', outcome(lambda: rq.Client(URL).call('ma')))
+    note('both.requests-recorded-by-aiohttp-mocker', len(pjrpc_aiohttp_mocker.calls.get(URL, {})))
+'''
+
+
+def run_fixtures(ctx, value, ecode):
+    """the plugin's pytest fixtures in a real pytest session (a subprocess): what the tests inside it observed comes back
+    through a report file and is judged here"""
+    import os
+    import subprocess
+    import tempfile
+    from ..core import REPO
+    d = tempfile.mkdtemp(prefix='vmon-c20-', dir='/var/tmp')
+    try:
+        with open(os.path.join(d, 'test_fixture_session.py'), 'w') as f:
+            f.write(FIXTURE_SESSION.replace('VALUE', repr(value)).replace('ECODE', repr(ecode)))
+        report = os.path.join(d, 'report.json')
+        env = dict(os.environ, VMON_C20_REPORT=report, PYTHONPATH=REPO, PYTHONDONTWRITEBYTECODE='1')
+        r = subprocess.run([os.environ.get('VERIF_PY', '/venv/bin/python'), '-m', 'pytest', '-q', '-p', 'no:cacheprovider', '-p',
+                            'pjrpc.client.integrations.pytest', '--timeout=120', 'test_fixture_session.py'], cwd=d, env=env,
+                           capture_output=True, text=True, timeout=300)
+        rep = json.load(open(report)) if os.path.exists(report) else {}
+    except Exception as e:
+        ctx.skip(f'fixture-session-could-not-run:{type(e).__name__}')
+        return
+    finally:
+        import shutil
+        shutil.rmtree(d, ignore_errors=True)
+    ctx.hit('fixtures:sessions')
+    cls = ('fixtures', json.dumps(value), ecode)
+    want = {
+        'r.call': ['ret', {'v': value}], 'r.error': ['rpc-error', ecode, 'cfg'], 'r.unpatched-method': ['rpc-error', -32601, 'Method not found'],
+        'r.batch': ['ret', [{'v': value}, {'v': value}]], 'r.recorded': [[[1, 2], {}], [[3], {}], [[], {'x': 4}]],
+        'a.call': ['ret', [value]], 'a.recorded': [[[5], {}]],
+        'both.requests': ['ret', 'from-requests-mocker'], 'both.requests-recorded-by-aiohttp-mocker': 0,
+    }
+    tail = r.stdout.strip().splitlines()[-3:]
+    for key, w in want.items():
+        if key not in rep:
+            ctx.violation(f'fixture-session:nothing-observed:{key.split(".")[0]}', 'fixtures', cls, missing=key, pytest_tail=tail, report=rep)
+            return
+        if rep[key] != w:
+            ctx.violation(f'fixture-session:{key}-differs-from-the-configured-answer', 'fixtures', cls, expected=w, observed=rep[key], pytest_tail=tail)
+            return
+    after = rep.get('after.call')
+    if after is None or after[0] != 'exc':
+        # no patch is alive any more: the call has to go to the real transport (and fail to resolve the host)
+        ctx.violation('fixture-session:mocker-still-answers-after-the-fixture-was-torn-down', 'fixtures', cls, observed=after, pytest_tail=tail)
+        return
+    ctx.ok('fixtures', cls, sample={'session': 'pytest -p pjrpc.client.integrations.pytest (4 tests)', 'observed': rep})
+
+
+KINDS = {'fixtures': run_fixtures, 'history': run_history, 'backend': run_backend, 'backend_passthrough': run_backend_passthrough, 'client_error': run_client_error, 'client_calls': run_client_calls,
          'concurrent': run_concurrent, 'concurrent_backends': run_concurrent_backends}
